@@ -21,7 +21,7 @@ import typing
 from sim.loop import HarnessError
 from worlds import tx_island
 
-STRATA = ('core', 'nofault', 'exotic', 'deep')
+STRATA = ('core', 'nofault', 'exotic', 'deep', 'migration', 'migration_nofault', 'refusal')
 NAMES = ('a', 'b')
 MODS = ('m1', 'm2', 'm3')
 CFGS = ('c1', 'c2')
@@ -174,9 +174,19 @@ class St(typing.NamedTuple):
     aliases: typing.Any
     config: typing.Any
     gschema: tuple = ('G0', frozenset())    # (global schema tag, frozenset of roles)
+    mig: typing.Any = None                  # Mig while a migration block is open
 
 
 ROLES = ('r1', 'r2')
+
+
+class Mig(typing.NamedTuple):
+    """A migration block in progress (EdgeDB-level overlay on the PostgreSQL-style state:
+    none of its DDL has reached the backend yet)."""
+    target: frozenset      # modules of the target schema
+    start: tuple           # (tag, modules) of the schema at START MIGRATION
+    own_tx: bool           # START MIGRATION opened the transaction itself
+    order: int             # savepoint counter at START MIGRATION
 
 
 class _BackendFailure(Exception):
@@ -195,7 +205,8 @@ class Model:
     def __init__(self, triple):
         self.base = triple
         self.in_tx = False
-        self.err = False
+        self.err = False         # the server refuses everything but a rollback (error seen in this block)
+        self.pg_err = False      # ... and the backend transaction itself is aborted (a unit failed in it)
         self.cur = None
         self.state0 = None
         self.sps = []            # [(name, triple)]
@@ -247,7 +258,7 @@ class World:
         isl['time'].now = now
 
         st = self.stratum
-        faulty = st != 'nofault'
+        faulty = st not in ('nofault', 'migration_nofault')
         cfg = {
             'nsteps': 3 + t.draw(8, 'nsteps') if t.draw(3, 'short') != 2 else 3 + t.draw(38, 'nsteps_long'),
             'pbefail': t.pick([0, 10, 30], 'pbefail') if faulty else 0,
@@ -255,6 +266,12 @@ class World:
             'proute': t.pick([50, 0, 100], 'proute'),      # % of in-tx compiles reusing the live state object
             'pscript': t.pick([0, 10], 'pscript') if faulty else 0,
             'exotic': st == 'exotic',
+            # a statement that compiled is refused by the server before it is executed (dbview.parse():
+            # check_capabilities() -> DisabledCapabilityError, "disabled by the client": e.g. a client
+            # library that does not allow transaction control inside its transaction blocks) - the
+            # compiler state has already moved on and has been stored
+            # (observe-only stratum 'refusal': neither a compile-time rejection nor an execution failure)
+            'prefuse': t.pick([5, 15], 'prefuse') if st == 'refusal' else 0,
         }
         if st == 'deep':
             # long histories that stay inside one transaction: savepoint / DDL / rollback-to heavy,
@@ -263,6 +280,12 @@ class World:
             cfg.update(nsteps=10 + t.draw(30, 'nsteps_deep'), pbefail=t.pick([0, 10], 'pbefail_deep'),
                        preject=t.pick([10, 30], 'preject_deep'), pscript=0)
         self.deep = st == 'deep'
+        self.mig_enabled = st.startswith('migration')
+        if self.mig_enabled:
+            cfg.update(pscript=0)      # migration commands inside scripts are not modelled
+            if st == 'migration_nofault':
+                cfg.update(pbefail=0, preject=0)
+        self.sp_order = 0
         self.cfg = cfg
 
         U0 = isl['FlatSchema']('U0', modules=('default', 'std'))
@@ -271,6 +294,7 @@ class World:
         dv = self.dv = Driver(isl, U0)
         m = self.m = Model(St(('U0', frozenset(['default', 'std'])), isl['DEFAULT_ALIASES'], E))
         self.flags = set()          # history features, for signatures
+        self.abandoned = False
         self.nserial = 0
         self.in_block_steps = 0
         self.last_sp_id = 0
@@ -279,11 +303,15 @@ class World:
         for self.step in range(cfg['nsteps']):
             stmts, kinds = self.draw_message()
             self.drive(self.one_message(stmts, kinds))
-            if self.violations:
+            if self.violations or self.abandoned:
                 break
         return self.result()
 
     obs_key = 7
+    sp_order = 0            # defaults for the pooled sessions, which do not go through run()
+    abandoned = False
+    deep = False
+    mig_enabled = False
     global_ddl = True       # the pooled mode shares one global schema between sessions: off there
 
     def new_request_key(self):
@@ -317,8 +345,21 @@ class World:
                 w = [1, 14, 1, 1, 1, 1, 1, 1, 1, 1, 1, 1]
         if not self.global_ddl:
             w[-1] = 0
-        kind = ('query', 'start', 'commit', 'rollback', 'declare', 'release', 'rollback_to',
-                'ddl', 'alias', 'reset_alias', 'config', 'gddl')[t.weighted(w, 'stmt_kind')]
+        kinds_ = ('query', 'start', 'commit', 'rollback', 'declare', 'release', 'rollback_to',
+                  'ddl', 'alias', 'reset_alias', 'config', 'gddl')
+        if getattr(self, 'mig_enabled', False):
+            in_mig = m.current().mig is not None
+            kinds_ += ('mig_start', 'mig_populate', 'mig_commit', 'mig_abort')
+            if m.in_tx and m.err:
+                #    query start commit rollback declare release rollback_to ddl alias reset config gddl
+                w = [1, 0, 1, 2, 1, 1, 5, 1, 1, 0, 1, 0] + ([0, 0, 1, 6] if in_mig else [1, 0, 0, 1])
+            elif in_mig:
+                w = [2, 1, 1, 1, 4, 2, 4, 8, 1, 1, 1, 1] + [1, 3, 5, 4]
+            elif m.in_tx:
+                w = [2, 1, 2, 1, 4, 2, 3, 3, 1, 1, 1, 1] + [7, 1, 1, 1]
+            else:
+                w = [2, 5, 1, 1, 1, 1, 1, 2, 1, 1, 1, 1] + [5, 1, 1, 1]
+        kind = kinds_[t.weighted(w, 'stmt_kind')]
         arg = ''
         if kind == 'query':
             ql = isl['FakeQuery']()
@@ -365,6 +406,24 @@ class World:
                 al = ('x', 'y')[t.draw(2, 'reset_alias_name')]
                 ql = qlast.SessionResetAliasDecl(alias=al)
                 arg = al
+        elif kind == 'mig_start':
+            cur_mods = self.m.current()[0][1]
+            tgt = set(cur_mods)
+            for _ in range(1 + t.draw(2, 'mig_ntoggle')):
+                tgt ^= {MODS[t.draw(len(MODS), 'mig_toggle')]}
+            ql = qlast.StartMigration(target=isl['mktarget'](tgt))
+            ql.__dict__['tgt'] = frozenset(tgt)
+            arg = ','.join(sorted(tgt - {'default', 'std'}))
+        elif kind == 'mig_populate':
+            ql = qlast.PopulateMigration()
+        elif kind == 'mig_commit':
+            ql = qlast.CommitMigration()
+            # the generated CREATE MIGRATION can still be rejected when COMMIT MIGRATION applies it
+            if self.cfg['preject'] and t.chance(self.cfg['preject'], 100, 'mig_commit_reject'):
+                ql.__dict__['reject_delta'] = True
+                arg = 'reject'
+        elif kind == 'mig_abort':
+            ql = qlast.AbortMigration()
         else:
             name = CFGS[t.draw(len(CFGS), 'cfg_name')]
             self.nserial += 1
@@ -392,12 +451,28 @@ class World:
     def model_accepts(self, kind, arg, ql):
         m = self.m
         cur = m.current()
+        mig = cur.mig
         if m.in_tx and m.err:
+            if kind == 'mig_abort':
+                # ABORT MIGRATION is let through in an errored block; its SQL is a plain
+                # ROLLBACK when the migration owns the transaction, otherwise a no-op
+                # SELECT, which an aborted backend transaction refuses
+                return mig is not None and (mig.own_tx or not m.pg_err)
             return kind == 'rollback' or (kind == 'rollback_to' and any(s[0] == arg for s in m.sps))
         if kind == 'start':
             return not m.in_tx
         if kind == 'commit':
-            return m.in_tx
+            return m.in_tx and mig is None          # "cannot execute COMMIT in a migration block"
+        if kind == 'mig_start':
+            return mig is None
+        if kind == 'mig_populate':
+            return mig is not None
+        if kind == 'mig_commit':
+            return mig is not None and cur[0][1] == mig.target and not ql.__dict__.get('reject_delta')
+        if kind == 'mig_abort':
+            return mig is not None
+        if kind == 'gddl' and mig is not None:
+            return False                            # global objects cannot be changed in a migration block
         if kind == 'rollback':
             return True
         if kind == 'declare':
@@ -427,12 +502,16 @@ class World:
         m = self.m
         cur = m.current()
         if m.in_tx and m.err:
+            if kind == 'mig_abort' and cur.mig is not None:
+                return m.pg_err and not cur.mig.own_tx
             return not (kind == 'rollback' or (kind == 'rollback_to' and any(s[0] == arg for s in m.sps)))
         if kind == 'declare':
             return not m.in_tx
         if kind in ('release', 'rollback_to'):
             return not (m.in_tx and any(s[0] == arg for s in m.sps))
         if kind == 'ddl':
+            if cur.mig is not None:
+                return False            # recorded by the compiler, SQL is a no-op
             have = ql.tag in cur[0][1]
             return have if ql.op == 'add' else not have
         if kind == 'gddl':
@@ -445,27 +524,70 @@ class World:
         cur = m.current()
         if kind == 'start':
             m.in_tx = True
-            m.err = False
+            m.err = m.pg_err = False
             m.cur = m.state0 = m.base
             m.sps = []
+        elif kind == 'mig_start':
+            own = not m.in_tx
+            if own:
+                m.in_tx = True
+                m.err = m.pg_err = False
+                m.cur = m.state0 = m.base
+                m.sps = []
+            m.cur = m.cur._replace(mig=Mig(ql.__dict__['tgt'], m.cur.schema, own, self.sp_order))
+            self.probes['migration_started_' + ('own_tx' if own else 'in_block')] += 1
+        elif kind == 'mig_populate':
+            tag, mods = cur[0]
+            tgt = cur.mig.target
+            for mod in sorted(mods - tgt):
+                tag, mods = tag + '-' + mod, mods - {mod}
+            for mod in sorted(tgt - mods):
+                tag, mods = tag + '+' + mod, mods | {mod}
+            m.cur = cur._replace(schema=(tag, mods))
+        elif kind == 'mig_commit':
+            self.note_migration_end(cur.mig)
+            m.cur = cur._replace(mig=None)
+            self.probes['migration_committed'] += 1
+            if cur.mig.own_tx:
+                m.base = m.cur
+                m.in_tx = False
+                m.sps = []
+        elif kind == 'mig_abort':
+            self.note_migration_end(cur.mig)
+            self.probes['migration_aborted' + ('_in_error_state' if m.err else '')] += 1
+            if cur.mig.own_tx:
+                m.in_tx = False
+                m.err = m.pg_err = False
+                m.sps = []
+            else:
+                # nothing of the block ever reached the backend: the schema is what it was at START
+                # MIGRATION; aliases and settings changed meanwhile stay (their SQL was executed)
+                m.cur = cur._replace(schema=cur.mig.start, mig=None)
+                m.err = False
         elif kind == 'commit':
             m.base = m.cur
             m.in_tx = False
             m.sps = []
         elif kind == 'rollback':
             m.in_tx = False
-            m.err = False
+            m.err = m.pg_err = False
             m.sps = []
         elif kind == 'declare':
             if any(s[0] == arg for s in m.sps):
                 self.flags.add('shadowing-savepoint')
                 self.probes['savepoint_shadowing'] += 1
-            m.sps.append((arg, m.cur, self.last_sp_id))
+            self.sp_order += 1
+            m.sps.append((arg, m.cur, self.last_sp_id, self.sp_order))
         elif kind == 'release':
             n_same = sum(1 for s in m.sps if s[0] == arg)
             while m.sps:
-                nm = m.sps.pop()[0]
-                if nm == arg:
+                ent = m.sps.pop()
+                if cur.mig is not None and not cur.mig.own_tx and ent[3] <= cur.mig.order:
+                    # a savepoint older than the open migration block is released: the compiler's
+                    # own (invisible) migration savepoint goes with it
+                    self.flags.add('migration-savepoint-released')
+                    self.probes['release_reaches_below_migration_start'] += 1
+                if ent[0] == arg:
                     break
             if n_same > 1:
                 self.flags.add('released-shadowing-savepoint')
@@ -474,7 +596,7 @@ class World:
             while m.sps[-1][0] != arg:
                 m.sps.pop()
             m.cur = m.sps[-1][1]
-            m.err = False
+            m.err = m.pg_err = False
             # which savepoint did the *server* resolve the name to?  (the
             # driver has already popped its list down to it)
             if self.dv.in_tx_savepoints and self.dv.in_tx_savepoints[-1][1] != m.sps[-1][2]:
@@ -552,6 +674,7 @@ class World:
         return ug
 
     TCL = ('start', 'commit', 'rollback', 'declare', 'release', 'rollback_to')
+    MIGK = ('mig_start', 'mig_populate', 'mig_commit', 'mig_abort')
 
     def one_message(self, stmts, kinds):
         if len(stmts) > 1 and not any(k in self.TCL for k, _ in kinds):
@@ -562,13 +685,18 @@ class World:
         kind, arg = kinds[0]
         ql = stmts[0]
         where = 'aborted' if (m.in_tx and m.err) else 'block' if m.in_tx else 'outside'
+        if m.current().mig is not None:
+            where += '-in-migration'
         if m.in_tx:
             self.in_block_steps += 1
 
         # backend failure decided up-front (so that the tape does not depend on outcomes)
-        eligible = kind in ('ddl', 'gddl', 'query', 'alias', 'reset_alias', 'config', 'commit') or (
+        eligible = kind in ('ddl', 'gddl', 'query', 'alias', 'reset_alias', 'config', 'commit', 'mig_commit') or (
             self.cfg['exotic'] and kind in ('start', 'declare', 'release', 'rollback', 'rollback_to'))
+        if kind == 'ddl' and m.current().mig is not None:
+            eligible = False        # DDL inside a migration block sends a no-op to the backend
         befail = bool(self.cfg['pbefail']) and t.chance(self.cfg['pbefail'], 100, 'backend_fail') and eligible
+        refused = bool(self.cfg.get('prefuse')) and t.chance(self.cfg['prefuse'], 100, 'refused') and kind != 'query'
 
         macc = (not is_script) and self.model_accepts(kind, arg, ql)
         # a script containing transaction control is always rejected
@@ -577,12 +705,13 @@ class World:
         cur_before = m.current()
 
         # ---- compile (dbview.parse) ----
+        isl['process_delta_fail'][0] = bool(ql.__dict__.get('reject_delta'))
         try:
             ug = yield from self.compile_message(stmts)
             # dbview.pyx:1590-1602  _check_in_tx_error()
             if dv.tx_error:
                 first = ug[0]
-                if not (first.tx_rollback or first.tx_savepoint_rollback) or len(ug) > 1:
+                if not (first.tx_rollback or first.tx_savepoint_rollback or first.tx_abort_migration) or len(ug) > 1:
                     raise errors.TransactionError('current transaction is aborted')
             compiled = True
         except HarnessError:
@@ -601,20 +730,39 @@ class World:
                 return
             compiled = False
             rej = type(e).__name__
+            rej_text = str(e)
             if not isinstance(e, errors.EdgeDBError):
                 self.probes[f'non_edgedb_rejection:{rej}'] += 1
             # binary.pyx:1128  dbview.tx_error() on any error of the message
             if dv.in_tx:
                 dv.tx_error = True
 
+        isl['process_delta_fail'][0] = False
+        if compiled and refused:
+            # dbview.pyx parse(): _compile() has stored the new state, then check_capabilities() raises;
+            # binary.pyx:1128: any error of the message puts an open transaction into the error state
+            if dv.in_tx:
+                dv.tx_error = True
+            if m.in_tx:
+                m.err = True
+            self.hist.append(self.describe(kinds) + '!refused')
+            self.ev('msg', kind, arg, 'refused', where)
+            self.probes[f'cell:{kind}:{where}:refused'] += 1
+            self.faults['capability_refusal'] += 1
+            return
         if not compiled:
             self.hist.append(self.describe(kinds) + '!rejected')
             self.ev('msg', kind, arg, 'rejected', where)
             self.probes[f'cell:{kind}:{where}:rejected'] += 1
             self.faults['compile_rejection'] += 1
+            if macc and kind in self.MIGK:
+                # the statement of C09 says nothing about the outcome of migration commands
+                # themselves: recorded, and the run goes on with the real outcome
+                self.probes[self.sig(f'observed:migration-command-rejected:{kind}:{where}')] += 1
+                macc = False
             if macc:
                 self.violate('T2', self.sig(f'rejected-valid:{where}:{kind}'),
-                             f'{self.describe(kinds)} was rejected at compile time ({rej}) although the '
+                             f'{self.describe(kinds)} was rejected at compile time ({rej}: {rej_text}) although the '
                              f'backend would accept it; history: {self.hist}')
                 return
             if m.in_tx:
@@ -636,6 +784,9 @@ class World:
                          f'is not allowed in scripts; history: {self.hist}')
             return
         unit = ug[0]
+        if kind in ('mig_commit', 'mig_abort') and m.current().mig is not None:
+            # the compiler ends the block when it compiles the command, whatever happens to the unit afterwards
+            self.note_migration_end(m.current().mig)
         # ---- T1: what did the compiler see? ----
         if kind == 'query' and not is_script:
             if not isl['observed'].get(self.obs_key):
@@ -670,6 +821,11 @@ class World:
         self.ev('msg', kind, arg, status, where)
         self.probes[f'cell:{kind}:{where}:{status}'] += 1
         if status == 'ok':
+            if not macc and kind in self.MIGK:
+                # (see above) the model cannot follow an outcome it does not predict: stop here
+                self.probes[self.sig(f'observed:migration-command-accepted:{kind}:{where}')] += 1
+                self.abandoned = True
+                return
             if not macc:
                 self.violate('T2', self.sig(f'accepted-invalid:{where}:{kind}'),
                              f'{self.describe(kinds)} succeeded although PostgreSQL semantics reject it '
@@ -685,6 +841,7 @@ class World:
         m = self.m
         m2 = Model(m.base)
         m2.in_tx, m2.err, m2.cur, m2.state0, m2.sps = m.in_tx, m.err, m.cur, m.state0, list(m.sps)
+        m2.pg_err = m.pg_err
         return m2
 
     def one_script(self, stmts, kinds):
@@ -822,7 +979,7 @@ class World:
                 # (now aborted) transaction
                 for (kind, arg), ql in list(zip(kinds, stmts))[:fail_at]:
                     self.model_apply(kind, arg, ql)
-                m.err = True
+                m.err = m.pg_err = True
             return
         if not was_in_tx:
             dv.commit_implicit_tx(user_schema, global_schema)
@@ -848,8 +1005,20 @@ class World:
         return ' ; '.join(f'{k} {a}'.strip() for k, a in kinds)
 
     def sig(self, base):
-        return base + (':after-server-resolved-a-released-savepoint'
-                       if 'resolved-released-savepoint' in self.flags else '')
+        if 'resolved-released-savepoint' in self.flags:
+            base += ':after-server-resolved-a-released-savepoint'
+        if 'migration-savepoint-released' in self.flags:
+            base += ':after-release-below-migration-start'
+        if 'migration-end-with-user-savepoints' in self.flags:
+            base += ':after-migration-ended-over-user-savepoints'
+        return base
+
+    def note_migration_end(self, mig):
+        """COMMIT / ABORT MIGRATION inside a transaction block while savepoints declared
+        inside the migration block still exist in the backend."""
+        if not mig.own_tx and any(ent[3] > mig.order for ent in self.m.sps):
+            self.flags.add('migration-end-with-user-savepoints')
+            self.probes['migration_ended_over_user_savepoints'] += 1
 
     def aliases_after(self, kind, arg, ql):
         m = self.m
@@ -860,7 +1029,7 @@ class World:
         if kind == 'rollback':
             return m.base[1]
         if kind == 'rollback_to':
-            for nm, triple, _ in reversed(m.sps):
+            for nm, triple, *_ in reversed(m.sps):
                 if nm == arg:
                     return triple[1]
             return None
@@ -878,15 +1047,21 @@ class World:
 
     # -- T3 ------------------------------------------------------------------------------
     def check_unit_fields(self, unit, kind, arg, where, kinds):
+        mig = self.m.current().mig
+        own = mig is not None and mig.own_tx
+        if kind in self.MIGK and kind != 'mig_start' and mig is None:
+            return      # accepted although no migration block is open: handled by the caller
         exp = {
-            'tx_commit': kind == 'commit', 'tx_rollback': kind == 'rollback',
+            'tx_commit': kind == 'commit' or (kind == 'mig_commit' and own),
+            'tx_rollback': kind == 'rollback' or (kind == 'mig_abort' and own),
             'tx_savepoint_declare': kind == 'declare', 'tx_savepoint_rollback': kind == 'rollback_to',
+            'tx_abort_migration': kind == 'mig_abort' and not own,
         }
         for f, want in exp.items():
             if bool(getattr(unit, f)) != want:
                 self.violate('T3', f'unit-field:{f}:{kind}', f'{self.describe(kinds)}: unit.{f}={getattr(unit, f)!r}')
                 return
-        if (unit.tx_id is not None) != (kind == 'start'):
+        if (unit.tx_id is not None) != (kind == 'start' or (kind == 'mig_start' and not self.m.in_tx)):
             self.violate('T3', f'unit-field:tx_id:{kind}', f'{self.describe(kinds)}: unit.tx_id={unit.tx_id!r}')
             return
         if kind in ('declare', 'rollback_to') and unit.sp_name != arg:
@@ -904,18 +1079,20 @@ class World:
         dv, m = self.dv, self.m
         # the backend itself fails what PostgreSQL would fail
         backend_rejects = self.backend_rejects(kind, arg, ql)
-        if dv.tx_error or unit.tx_savepoint_rollback:
+        if dv.tx_error or unit.tx_savepoint_rollback or unit.tx_abort_migration:
             # binary.pyx:719-748  _execute_rollback()
-            if not (unit.tx_savepoint_rollback or unit.tx_rollback):
+            if not (unit.tx_savepoint_rollback or unit.tx_rollback or unit.tx_abort_migration):
                 raise HarnessError('non-rollback unit reached _execute_rollback')
             if backend_rejects or befail:
                 # binary.pyx:1128: dbview.tx_error()
                 if dv.in_tx:
                     dv.tx_error = True
                 if m.in_tx:
-                    m.err = True
+                    m.err = m.pg_err = True        # any SQL error aborts the backend transaction
                 return 'failed'
-            if unit.tx_savepoint_rollback:
+            if unit.tx_abort_migration:
+                dv.tx_error = False            # dbview.clear_tx_error()
+            elif unit.tx_savepoint_rollback:
                 try:
                     dv.rollback_tx_to_savepoint(unit.sp_name)
                 except RuntimeError as e:
@@ -932,21 +1109,23 @@ class World:
             # execute.pyx:403-409
             if dv.in_tx:
                 dv.tx_error = True
-            if unit.tx_commit and dv.in_tx:
+            if unit.tx_commit and dv.in_tx and kind != 'mig_commit':
                 # COMMIT failed: the backend is no longer in a transaction
+                # (execute.pyx:403-409; for "<migration DDL>; COMMIT" the DDL fails first and
+                # the backend stays in its aborted transaction)
                 dv.reset_tx_state()
                 m.in_tx = False
-                m.err = False
+                m.err = m.pg_err = False
                 m.sps = []
             elif kind == 'start' and not m.in_tx:
                 # exotic: START failed in the backend (the server is already
                 # in its transaction, in error state; only ROLLBACK gets out)
                 m.in_tx = True
-                m.err = True
+                m.err = m.pg_err = True
                 m.cur = m.state0 = m.base
                 m.sps = []
             elif m.in_tx:
-                m.err = True
+                m.err = m.pg_err = True
             return 'failed'
         # execute.pyx:346-351
         if unit.tx_savepoint_declare:
